@@ -37,6 +37,14 @@ Fixpoint find_from (n h : list Z) (i : Z) {struct h} : option Z :=
        | _ :: t => find_from n t (i + 1)
        end.
 
+(* the part of h before the first occurrence of n *)
+Fixpoint find_pre (n h : list Z) {struct h} : option (list Z) :=
+  if prefixb n h then Some []
+  else match h with
+       | [] => None
+       | c :: t => option_map (cons c) (find_pre n t)
+       end.
+
 (* char::is_whitespace: the Unicode White_Space property *)
 Definition is_ws (c : Z) : bool :=
   ((9 <=? c) && (c <=? 13)) || (c =? 32) || (c =? 133) || (c =? 160) || (c =? 5760) ||
@@ -244,7 +252,7 @@ Definition str_exact (f : sfn) (args : list val) : sres :=
       end
   | SInstr, [h; n] =>
       match cps_of h, cps_of n with
-      | Some hc, Some nc => SInt (match find_from nc hc 0 with Some k => k + 1 | None => 0 end)    (* CHARACTER position *)
+      | Some hc, Some nc => SInt (match find_pre nc hc with Some pre => zlen pre + 1 | None => 0 end)    (* CHARACTER position *)
       | _, _ => SAny
       end
   | SLocate, n :: h :: rest =>
@@ -252,10 +260,10 @@ Definition str_exact (f : sfn) (args : list val) : sres :=
       | Some nc, Some hc =>
           match nc, rest with
           | [], _ => SAny
-          | _, [] => SInt (match find_from nc hc 0 with Some k => k + 1 | None => 0 end)
+          | _, [] => SInt (match find_pre nc hc with Some pre => zlen pre + 1 | None => 0 end)
           | _, [VInt start] =>
               if start <? 1 then SAny
-              else SInt (match find_from nc (skip_z (start - 1) hc) 0 with Some k => k + start | None => 0 end)
+              else SInt (match find_pre nc (skip_z (start - 1) hc) with Some pre => zlen pre + start | None => 0 end)
           | _, _ => SAny
           end
       | _, _ => SAny
@@ -313,8 +321,8 @@ Definition sfn_class (f : sfn) (args : list val) : Z :=
   | SInstr, [VText h; VText n] =>
       match decode_utf8 h, decode_utf8 n with
       | Some hc, Some nc =>
-          match find_from nc hc 0 with
-          | Some k => if is_ascii (firstn (Z.to_nat k) hc) then 0 else 4
+          match find_pre nc hc with
+          | Some pre => if is_ascii pre then 0 else 4
           | None => 0
           end
       | _, _ => 0
